@@ -1938,3 +1938,15 @@ Proof.
   split; [apply (set_name_pack (new_vgroup 9) ex_name_b (WFpack_new 9)); [reflexivity|vm_compute; discriminate]|].
   split; [reflexivity|]. vm_compute. split; [reflexivity|discriminate].
 Qed.
+
+
+(** ... and so it changes nothing the model state stands for: a call the specification refuses (over-long name,
+    duplicate Vinsert, absent member, 65536th member, missing object, read-only vgroup ...) leaves name, class, members
+    and tables of every vgroup as they were *)
+Lemma model_refused_changes_nothing_lemma : forall m o, Inv m -> snd (VGraphSpec.step (abs_state m) o) = RFail ->
+  abs_state (fst (mstep m o)) = abs_state m /\ snd (mstep m o) = RFail /\ Inv (fst (mstep m o)).
+Proof.
+  intros m o I F. destruct (step_sim m o I) as [U|(I' & A' & R')]; [congruence|].
+  split; [rewrite A'; apply spec_refused_changes_nothing_lemma; exact F|].
+  split; [|exact I']. destruct R' as [R'|R']; congruence.
+Qed.
